@@ -1,5 +1,5 @@
 """C19 - script-implemented library commands leave no trace in the caller's variables (reduced scope: the wrapper mechanism)."""
-import time
+import time, os, sys
 import z3
 from mirsym import harness as H, solve
 from mirsym.values import *
@@ -74,6 +74,7 @@ def job_wrapper(ctx, jr, nargs, vcap):
     rs, rv = e.call_fn(f, st, [PV(selfv), ctxv])
     jr.symex_time = time.time() - t0
     if rs is None: raise Abort('never returns')
+    if os.environ.get('VERIF_DEBUG_BODY'): print('DEBUG rv', rv, file=sys.stderr)
     post_vars = e.read(rs, ('mem', 0, 'vars', [])); post_state = e.read(rs, ('mem', 0, 'state', []))
     checks = []
     too_few = nargs < amount if not is_sym(amount) else (amount > nargs)
@@ -141,13 +142,17 @@ def body_replayer(v):
         if k in ('arr', 'map', 'set'): call.append('${%s}' % hv[hi]); hi += 1
         elif k == 'name': call.append(a)
         else: call.append(q(a))
-    lines.append('rr = %s %s' % (v['cmd'], ' '.join(call)))
+    lines.append('rr = %s %s' % (v['cmd'], ' '.join(call))); call_line = len(lines)
     for var in hv: lines.append('release ${%s}' % var)
     if REAL[v['cmd']][2] == 'new': lines.append('release ${rr}')
     lines.append('rr = set done')
     out = H.replay(dict(mode='sdk', script='\n'.join(lines), vars=v['caller'])); v['native'] = out; v['script'] = lines
     if out.get('panic'): return (True, 'native panic')
-    if not out.get('ok'): return (None, 'replay script failed: %r' % (out.get('error'),))
+    if not out.get('ok'):
+        err = out.get('error') or {}
+        # the call itself ends the native run (the wrapper's own leak detector, or a crash of the body): the property's "does not crash"
+        if isinstance(err, dict) and err.get('line') == call_line: return (True, 'the call of %s ends the native run: %s' % (v['cmd'], err.get('message')))
+        return (None, 'replay script failed: %r' % (err,))
     exp = dict(v['caller'])
     if v['cmd'] == 'unset':
         for a in v['args']: exp.pop(a, None)
@@ -163,15 +168,16 @@ def replayer(v): return body_replayer(v) if v.get('kind') == 'c19_body' else wra
 def main(tier, seed):
     chk = H.Check(PID, tier, seed)
     chk.replayer = replayer
-    for c_ in REAL:
-        if c_ == 'concat' and tier == 'quick': continue          # ~6 min (string building through repeated template expansion): thorough tier only
-        chk.job(job_real_body, 'body:' + c_, cmd=c_, vcap=1 if c_ == 'concat' else 2)
+    for c_ in REAL: chk.job(job_real_body, 'body:' + c_, cmd=c_, vcap=2)
+    for c_ in MORE: chk.job(job_more_bodies, 'body:' + c_, cmd=c_, vcap=1 if tier == 'quick' else 2)
     vcap = 2 if tier == 'quick' else 3
     for n in range(0, 4): chk.job(job_wrapper, 'wrapper:%dargs' % n, nargs=n, vcap=vcap)
     chk.bounds = dict(arguments='0..3', value_chars=vcap, caller_variables=3, handles='0..2')
-    chk.assumptions = ['the script body (utils::eval::eval_instructions) is a havoc stub constrained by the wrapper contract: it may add, change or remove any variable whose name starts with the '
-                       "command's scope prefix and return any result; that each of the 21 real script.ds bodies keeps its working variables under its prefix and releases what it creates is NOT checked "
-                       '(the bodies call commands backed by evalexpr and other crates; a property of a script text is outside MIR execution)',
+    chk.assumptions = ['wrapper:* jobs: the script body (utils::eval::eval_instructions) is a havoc stub constrained by the wrapper contract: it may add, change or remove any variable whose name starts with the '
+                       "command's scope prefix and return any result",
+                       'body:* jobs: the REAL script.ds bodies of unset, concat (1 and 2 arguments), map_contains_key, array_is_empty, set_is_empty, map_is_empty, set_from_array, array_join, array_contains and '
+                       'map_contains_value are parsed and run by the real code (AliasCommand::run, eval_instructions explored per script line, the real commands they call; calc is a stub for integer +/-). '
+                       'The other 10 of the 21 bodies (array_concat: too slow; the rest call commands backed by the file system, the network, process spawning or hashing crates) are covered by the wrapper jobs only',
                        'caller variables named under the command\'s own prefix (scope::<cmd>::...) are excluded: clearing them is the documented mechanism',
                        'put_handle: arbitrary non-live key']
     results = chk.run()
@@ -191,14 +197,40 @@ REAL = {
 }
 
 
-def job_real_body(ctx, jr, cmd, vcap):
+MORE = {
+    # bodies whose control flow depends on their arguments (sizes and the values used in condition position are enumerated, the rest is symbolic)
+    'concat2': ('sdk::std::string::concat', ('val', 'val'), None),
+    'array_join': ('sdk::std::collections::array_join', ('arr', 'val'), None),
+    'array_contains': ('sdk::std::collections::array_contains', ('arr', 'val'), None),
+    'map_contains_value': ('sdk::std::collections::map_contains_value', ('map', 'val'), None),
+}
+
+
+def job_more_bodies(ctx, jr, cmd, vcap):
+    from .c12 import calc_model
+    helpers = {'array_join': ['sdk::std::collections::array_is_empty'], 'map_contains_value': ['sdk::std::collections::map_is_empty']}.get(cmd, ())
+    seps = ['', ',', '#', 'ab']
+    for n in range(3):
+        vals = [[x] for x in seps] if cmd == 'array_join' else [[1, 1]] if cmd == 'concat2' else [[0], [1]]
+        import itertools
+        ilens = [[1, 1]] if ctx.tier == 'quick' else [list(x) for x in itertools.product(range(vcap + 1), repeat=2) if not (cmd == 'map_contains_value' and n == 2 and x[0] == x[1] == 0)]
+        for vl in vals:
+            for il in ilens:
+                job_real_body(ctx, jr, cmd.rstrip('2'), vcap, spec=MORE[cmd], prep=calc_model, helpers=helpers, shape=(n, il, vl), sym_map_values=(cmd == 'map_contains_value'))
+                if jr.status == 'inconclusive' or jr.violations: return
+        if cmd == 'concat2': break
+    jr.bounds['shapes'] = 'collection sizes 0..2 enumerated; ' + ('separator from %r' % seps if cmd == 'array_join' else 'value lengths enumerated')
+
+
+def job_real_body(ctx, jr, cmd, vcap, pid=None, oracle=None, spec=None, prep=None, sym_map_values=False, helpers=(), caller_vars=True, shape=None):
     """the REAL body (script.ds as compiled into the MIR constants of the current tree) of a script-implemented command, run through
     the real AliasCommand::run / eval_instructions / runner::run_instruction and the real commands its body uses, with symbolic
     arguments and caller variables: afterwards the caller variables are exactly as before (minus what the command is documented to
     remove), nothing else remains, and the handle table is as before (plus the returned collection, where the command returns one)"""
     from conformance.scripts import sdk_commands
     from .c12 import map_eq
-    mod, argk, effect = REAL[cmd]
+    pid = pid or PID
+    mod, argk, effect = spec or REAL[cmd]
     names_pool = ['a', 'scope::%sx::y' % cmd, 'scope::%s' % cmd, 'zz', 'scope::%s:n' % cmd]
     jr.bounds = dict(command=cmd, arguments=list(argk), value_chars=vcap, caller_variables='3 symbolic picks from %r' % (names_pool,), collections='0..2 elements, symbolic',
                      body='the real script text, parsed and run by the real code')
@@ -206,6 +238,8 @@ def job_real_body(ctx, jr, cmd, vcap):
     e = ctx.engine(unwind=40, max_rec=6); e.int_digits = 2
     e.hooks['utils::state::put_handle'] = hook_put_handle
     e.hooks['std::sync::atomic::Atomic::<bool>::load'] = lambda eng, st1, a, c: False
+    if prep: prep(e)
+    e.split_loops['utils::eval::eval_instructions'] = 'line'        # the body's fetch / execute loop: one state per script line
     t0 = time.time()
     st = State(True, {})
     # the command under test, created by its own create()
@@ -215,6 +249,15 @@ def job_real_body(ctx, jr, cmd, vcap):
     boxed = r_.p[0][0]; selfv = e.deref(st, boxed) if isinstance(boxed, (P, PV)) else boxed
     e.unwind = 160                     # above the longest line / template of a body (expand_by_wrapper and the scanner walk them char by char)
     body_text = str_concrete(selfv.f[4]) or ''
+    # script-implemented commands that the body calls (array_join -> array_is_empty, map_contains_value -> map_is_empty): created by their own create()
+    e.unwind = 5000; helper_boxes = []
+    for hm in helpers:
+        st, rh = e.run('sdk', hm + '::create', [mk_str('std')], st)
+        if st is None or rh.d != 0: raise Abort('create() of helper %s failed' % hm)
+        hb = rh.p[0][0]; helper_boxes.append(hb)
+        hv_ = e.deref(st, hb) if isinstance(hb, (P, PV)) else hb
+        body_text += '\n' + (str_concrete(hv_.f[4]) or '')
+    e.unwind = 160
     # the Rust commands its body uses, registered through the real Commands::set
     cmds = sdk_commands()
     st.m[(0, 'cmds')] = T([M([]), M([])], 'types::command::Commands')
@@ -223,31 +266,38 @@ def job_real_body(ctx, jr, cmd, vcap):
         if tok in cmds and cmds[tok][0] not in done:
             ty, nf = cmds[tok]; done.add(ty)
             st, r2 = e.run('core', 'types::command::Commands::set', [P(0, 'cmds'), e.alloc(st, T([mk_str('::'.join(ty.split('::')[1:-2]))] * nf, ty))], st)
+    for hb in helper_boxes: st, r2 = e.run('core', 'types::command::Commands::set', [P(0, 'cmds'), hb], st)
     for ty_, nf in set((cmds[k][0], cmds[k][1]) for k in cmds if 'flowcontrol' in cmds[k][0]):
         if ty_ not in done:
             done.add(ty_); st, r2 = e.run('core', 'types::command::Commands::set', [P(0, 'cmds'), e.alloc(st, T([mk_str('std::flowcontrol')] * nf, ty_))], st)
-    # script-implemented helpers used by other bodies (array_concat uses none; map_*_is_empty are themselves bodies)
     # caller variables
+    # shape = (elements per collection, [length of each element], [length of each value argument]): concrete sizes, symbolic contents
+    def sized(sv, ln): return sv if ln is None else mk_str(ln) if isinstance(ln, str) else S(ln, list(sv.ch[:ln]))
+    sh_n, sh_items, sh_vals = shape if shape else (None, None, None)
     cn = [e.fresh_int('cv%d.name' % i, 0, len(names_pool) - 1) for i in range(3)]
-    cp = [e.fresh_bool('cv%d.present' % i) for i in range(3)]
+    cp = [e.fresh_bool('cv%d.present' % i) if caller_vars else False for i in range(3)]
     cval = [H.sym_str(e, 'cv%d.val' % i, vcap) for i in range(3)]
     e.assume(z3.And(cn[0] < cn[1], cn[1] < cn[2]))
     pre_vars = M([(cp[i], choose(cn[i], names_pool), cval[i]) for i in range(3)])
     # live collections
-    colls_sym = {}
+    colls_sym = {}; map_vals = {}
 
     def coll(tag, kind):
-        n = e.fresh_int('%s.len' % tag, 0, 2); items = [H.sym_str(e, '%s.%d' % (tag, i), vcap) for i in range(2)]
+        n = e.fresh_int('%s.len' % tag, 0, 2) if sh_n is None else sh_n
+        items = [sized(H.sym_str(e, '%s.%d' % (tag, i), vcap), sh_items[i] if sh_items else None) for i in range(2)]
         colls_sym[tag] = (kind, n, items)
         if kind == 'arr': return E(SV, LIST, {LIST: [V(n, [E(SV, STR, {STR: [x]}) for x in items])]})
+        distinct = zimp(zeq(n, 2), znot(str_eq(items[0], items[1])))
+        if distinct is False: raise NotRecognised('shape with two equal keys')
         if kind == 'set':
-            e.assume(z3.Implies(n == 2, z3.Not(str_eq(items[0], items[1]))))
-            return E(SV, SET, {SET: [M([(n > i, items[i], UNIT) for i in range(2)])]})
-        e.assume(z3.Implies(n == 2, z3.Not(str_eq(items[0], items[1]))))
-        return E(SV, SUB, {SUB: [M([(n > i, items[i], E(SV, STR, {STR: [mk_str('v%d' % i)]})) for i in range(2)])]})
+            if distinct is not True: e.assume(distinct)
+            return E(SV, SET, {SET: [M([(simp(n > i), items[i], UNIT) for i in range(2)])]})
+        if distinct is not True: e.assume(distinct)
+        map_vals[tag] = [H.sym_str(e, '%s.v%d' % (tag, i), vcap) if sym_map_values else mk_str('v%d' % i) for i in range(2)]
+        return E(SV, SUB, {SUB: [M([(simp(n > i), items[i], E(SV, STR, {STR: [map_vals[tag][i]]})) for i in range(2)])]})
     args = []; hents = []
     for i, k in enumerate(argk):
-        if k == 'val': args.append(H.sym_str(e, 'arg%d' % i, vcap))
+        if k == 'val': args.append(sized(H.sym_str(e, 'arg%d' % i, vcap), sh_vals[len([x for x in argk[:i] if x == 'val'])] if sh_vals else None))
         elif k == 'name': args.append(choose(e.fresh_int('arg%d.name' % i, 0, len(names_pool) - 1), names_pool))
         else:
             key = mk_str('handle:P%d' % i); hents.append((True, key, coll('coll%d' % i, k))); args.append(key)
@@ -258,8 +308,9 @@ def job_real_body(ctx, jr, cmd, vcap):
     st2.m[(0, 'state')] = state; st2.m[(0, 'vars')] = pre_vars
     f = e.find_method('types::command::AliasCommand', 'Command', 'run', 'sdk')
     rs, rv = e.call_fn(f, st2, [PV(selfv), ctxv])
-    jr.symex_time = time.time() - t0
+    jr.symex_time += time.time() - t0
     if rs is None: raise Abort('never returns')
+    if os.environ.get('VERIF_DEBUG_BODY'): print('DEBUG rv', rv, file=sys.stderr)
     post_vars = e.read(rs, ('mem', 0, 'vars', [])); post_state = e.read(rs, ('mem', 0, 'state', []))
     checks = [('the command does not crash', zand(rv.d != 3))]
     removed = lambda nm: zor(*[str_eq(a, nm) for a, k in zip(args, argk) if k == 'name']) if effect == 'unset' else False
@@ -281,11 +332,12 @@ def job_real_body(ctx, jr, cmd, vcap):
     ok_run = zand(rv.d != 2, rv.d != 3)
     checks.append(('the collections of the caller are untouched', zand(*[zand(map_lookup(e, rs, ptab, k_)[0], sv_eq(e, rs, map_lookup(e, rs, ptab, k_)[1], v_)) for p_, k_, v_ in hents]) if hents else True))
     checks.append(('no temporary collection is left behind', zeq(hc, len(hents) + (zite(ok_run, 1, 0) if effect == 'new' else 0))))
-    for msg_, c in checks: e.obligations.append(Obligation(rs.g, c, 'C19 real body of %s: %s' % (cmd, msg_), 'assert', 'oracle'))
+    if oracle: checks += oracle(e, rs, rv, args, colls_sym, map_vals, ptab, hents)
+    for msg_, c in checks: e.obligations.append(Obligation(rs.g, c, '%s real body of %s: %s' % (pid, cmd, msg_), 'assert', 'oracle'))
 
     def extract(m, o=None):
-        return dict(kind='c19_body', cmd=cmd, args=[solve.model_str(m, a) for a in args], caller={names_pool[solve.model_int(m, cn[i])]: solve.model_str(m, cval[i]) for i in range(3) if solve.model_bool(m, cp[i])},
+        return dict(kind='c19_body' if pid == PID else 'script_body', map_values={t_: [solve.model_str(m, x) for x in vs_] for t_, vs_ in map_vals.items()}, cmd=cmd, args=[solve.model_str(m, a) for a in args], caller={names_pool[solve.model_int(m, cn[i])]: solve.model_str(m, cval[i]) for i in range(3) if solve.model_bool(m, cp[i])},
                     colls=[(k_, [solve.model_str(m, x) for x in it_[:solve.model_int(m, n_)]]) for tag_, (k_, n_, it_) in sorted(colls_sym.items())], argkinds=list(argk))
-    res = discharge_known(e, jr, PID, {}, extract)
+    res = discharge_known(e, jr, pid, {}, extract)
     witness(jr, e, 'real body of %s runs to a result' % cmd, rs.g, extract)
     H.finish_job(jr, e, res)
